@@ -66,7 +66,8 @@ RULE = ('(1) exhaustive: every history of length L (quick 3, thorough 4) over th
 EXHAUSTIVE = {'quick': True, 'thorough': True}
 ASSUMPTIONS = ['names are ASCII identifiers (str.upper on ASCII); association keys on the referential side are spelled as '
                'declared; a class whose attribute names coincide apart from letter case cannot exist: define_class '
-               'rejects it (generated and checked: MetaModelException, nothing defined); likewise an attribute name of the '
+               'rejects it (generated and checked: MetaModelException, nothing defined; the attribute list is handed to define_class '
+               'as list, tuple, zip, generator, iterator, map or dict items view in turn); likewise an attribute name of the '
                'form __x__ (reserved by python; names with underscores that are not of that form are generated and accepted)',
                'attribute names do not collide with Python-level attributes of xtuml.meta.Class',
                'loaded-from-text family: identifiers the text grammar cannot spell (R<digit>... lexes as a relation id, '
@@ -667,7 +668,10 @@ def run_impl(case):
                                                     if K == kb.upper() and orc.link[i] is None)
         for i in range(len(insts)):
             check_instance(i, -1)
+    abort = False
     for n, op in enumerate(case['ops']):
+        if abort:
+            break                  # the class table no longer is what the history says: nothing after it is meaningful
         nm = op[0]
         stats['op_' + nm] = stats.get('op_' + nm, 0) + 1
         res = Sym('ok')
@@ -680,12 +684,37 @@ def run_impl(case):
                 reserved = any(_is_dunder(a) for a, _ in op[2])  # a name of the form __x__
                 try:
                     given = [tuple(a) for a in op[2]]
-                    made = m.define_class(op[1], given)
+                    # the attributes are handed over in every form an iterable of pairs can take - also ONE-SHOT iterables
+                    # (zip of names and types, a generator, an iterator, a map, the items view of a dict), which can be read once
+                    form = (n + len(op[1]) + len(given)) % 8
+                    exact_distinct = len(set(a for a, _ in given)) == len(given)
+                    if form == 1:
+                        handed = tuple(given)
+                    elif form == 2:
+                        handed = zip([a for a, _ in given], [t for _, t in given])
+                    elif form == 3:
+                        handed = (pair for pair in list(given))
+                    elif form == 4:
+                        handed = iter(list(given))
+                    elif form == 5:
+                        handed = map(tuple, [list(pair) for pair in given])
+                    elif form == 6 and exact_distinct:
+                        handed = dict(given).items()
+                    else:
+                        form, handed = 0, given
+                    stats['define_form_%d' % form] = stats.get('define_form_%d' % form, 0) + 1
+                    made = m.define_class(op[1], handed)
+                    if [tuple(a) for a in made.attributes] != [tuple(a) for a in op[2]]:
+                        fail('class-attributes-differ', 'define_class(%r, <%s of %r>) defined a class with the attributes %r'
+                             % (op[1], ['list', 'tuple', 'zip', 'generator', 'iterator', 'map', 'dict items'][form], op[2],
+                                list(made.attributes)), n)
+                        abort = True
                     # the caller's list stays the caller's: it is not changed, and changing it afterwards does not change the class
                     if given != [tuple(a) for a in op[2]]:
                         fail('argument-changed', 'define_class(%r) changed the attribute list it was given to %r' % (op[1], given), n)
                     given.append(('Zz_%d' % n, 'integer'))
                     given[:1] = [('Qq_%d' % n, 'string')]
+                    # (with a one-shot form the class was built from a copy; the mutation then shows nothing, which is fine)
                     if [tuple(a) for a in made.attributes] != [tuple(a) for a in op[2]]:
                         fail('class-aliases-argument', 'changing the list given to define_class(%r) afterwards changed the class: '
                              'attributes %r' % (op[1], list(made.attributes)), n)
